@@ -19,8 +19,8 @@ ASSUMPTIONS = [
 NAMES = ["chunked", "identity", "Chunked", "IDENTITY", "trailers", "gzip", "", " chunked ", "chunked2"]
 QS = ["", ";q=1", ";q=0", ";q=0.5", ";q=0.501", ";q=0.499", "; q=0.9", ";q= 0.9 ", ";Q=0", ";q=abc", ";q=",
       ";q=-1", ";q=2", ";q=1.000", ";q=0.000", ";q=.5", ";q=1.", ";x=1;q=0", ";q=zz;q=0", ";q=0;q=1", ";q=1e0",
-      ";q=0.0001", ";q=0,5", ";q=+0.3", ";q=-0", ";q=1.0.0", ";q=007", ";q=0.001", ";q=999.999"]
-Q2 = ["", ";q=0", ";q=0.3", ";q=0.7", ";q=1", ";q=abc", ";q=0.70"]
+      ";q=0.0001", ";q=0,5", ";q=+0.3", ";q=-0", ";q=1.0.0", ";q=007", ";q=0.001", ";q=999.999", ";q=NaN", ";q=nan", ";q=-nan", ";q=+NAN"]
+Q2 = ["", ";q=0", ";q=0.3", ";q=0.7", ";q=1", ";q=abc", ";q=0.70", ";q=NaN"]
 
 
 def te_headers():
